@@ -33,7 +33,6 @@ pub fn gz_oracle(w: &[u8], want: usize) -> (Vec<u8>, String) {
 ///   b<cap>   std BufReader with capacity cap over a Cursor
 ///   s<k>     the first read delivers k bytes, later reads everything asked for
 ///   t<k>     every read delivers at most k bytes
-///   w<k>     the first read delivers k bytes, then the stream ENDS (window-only stream)
 pub fn make_reader(kind: &str, data: Vec<u8>) -> Box<dyn Read> {
     let (k, n) = kind.split_at(1);
     let n: usize = n.parse().unwrap_or(0);
